@@ -553,7 +553,7 @@ func conversionMapToObject(mapType cty.Type, objType cty.Type, unsafe bool) conv
 		for name, aty := range objectAtys {
 			if _, exists := elems[name]; !exists {
 				if optional := objType.AttributeOptional(name); optional {
-					elems[name] = cty.NullVal(aty)
+					elems[name] = cty.NullVal(aty.WithoutOptionalAttributesDeep())
 				} else {
 					return cty.NilVal, path.NewErrorf("map has no element for required attribute %q", name)
 				}
